@@ -316,9 +316,65 @@ def run(ctx):
                 if not frame_ok_cpts(y):
                     ctx.violation(f"{det}.predict: malformed frame", inp, {"what": "frame", "detector": det})
                 add((f"WMw {m} {n} {nlist(cp)}" if det == "MovingWindow" else f"WCpts {m} {n} {nlist(cp)}"), inp, cp)
+    default_scale_stream(ctx)
     bad = coq_bad_cases(ctx.cid, HEADER, "wf_case", "wf_ok", cases, shard=400)
     for i in bad[:40]:
         m = meta[i]
         ev = m.get("icolumns", m.get("changepoints", m.get("anomalies")))
         ctx.violation(f"{m['detector']}: ill-formed output {ev} for { {k: v for k, v in m.items() if k not in ('X', 'tables', 'changepoints', 'anomalies')} }", m,
                       {"what": "ill-formed", "detector": m["detector"]})
+
+
+def default_scale_stream(ctx):
+    """All seven detectors with DEFAULT hyper-parameters on long, wide series: the structural clauses of the property checked directly (the Coq checkers take the same
+    clauses on short outputs; here the outputs can have hundreds of rows)."""
+    import random as _random
+    from skchange.anomaly_detectors import CAPA, MVCAPA, CircularBinarySegmentation, StatThresholdAnomaliser
+    from skchange.change_detectors import PELT, MovingWindow, SeededBinarySegmentation
+    rng = ctx.rng
+    for it in range(ctx.n(2, 8)):
+        n = rng.choice([400, 900, 1600]) if it % 2 == 0 else rng.randint(300, 1200)
+        p = rng.choice([1, 3, 10])
+        X = np.asarray([[rng.gauss(0, 1) for _ in range(p)] for _ in range(n)])
+        for c in sorted(rng.sample(range(30, n - 30), max(2, n // 120))):
+            X[c:, : rng.randint(1, p)] += rng.choice([3.0, -4.0, 2.0])
+        for _ in range(n // 100):
+            X[rng.randrange(n), rng.randrange(p)] += rng.choice([12.0, -14.0])
+        Xd = pd.DataFrame(X)
+
+        def bad(det, msg, extra=None):
+            ctx.violation(f"{det} with default hyper-parameters on a {n} x {p} series: {msg}", dict({"detector": det, "n": n, "p": p, "defaults": True}, **(extra or {})),
+                          {"what": "default-scale-wellformed", "detector": det})
+        for det, mk, kind in [("PELT", PELT, "cpt"), ("SeededBinarySegmentation", SeededBinarySegmentation, "cpt"), ("MovingWindow", MovingWindow, "mw"),
+                              ("CAPA", CAPA, "capa"), ("MVCAPA", MVCAPA, "capa"), ("CircularBinarySegmentation", CircularBinarySegmentation, "cbs")]:
+            if det == "CircularBinarySegmentation" and n > 500:
+                continue          # its candidate enumeration is cubic in max_interval_length: long series are covered by C09's own stream
+            try:
+                d = mk().fit(Xd)
+                y = d.predict(Xd)
+            except Exception as ex:
+                bad(det, f"raised {type(ex).__name__}: {str(ex)[:120]}")
+                continue
+            ctx.case({"default_scale_wf": det, "it": it, "n": n, "p": p, "x0": float(X[0, 0])}, nontrivial=len(y) > 0)
+            ctx.count("default_scale", det)
+            if not isinstance(y.index, pd.RangeIndex) or list(y.index) != list(range(len(y))):
+                bad(det, "the result does not carry a 0..K-1 range index")
+            if kind in ("cpt", "mw"):
+                cp = [int(v) for v in y["ilocs"]]
+                lo_, hi_ = (d.bandwidth, n - d.bandwidth) if kind == "mw" else (d.min_segment_length, n - d.min_segment_length)
+                gap = 1 if kind == "mw" else d.min_segment_length
+                if y["ilocs"].dtype != np.int64 or any(b_ - a_ < gap for a_, b_ in zip(cp, cp[1:])) or any(not (max(1, lo_) <= c_ <= min(n - 1, hi_)) for c_ in cp):
+                    bad(det, f"changepoints are not strictly increasing integers in [{lo_}, {hi_}] leaving segments of at least {gap}: {cp[:15]}", {"changepoints": cp})
+            else:
+                iv = [(int(l), int(r)) for l, r in zip(y["ilocs"].array.left, y["ilocs"].array.right)]
+                okc = str(y["ilocs"].array.closed) == "left" and all(0 <= l < r <= n for l, r in iv) and all(b_[0] >= a_[1] for a_, b_ in zip(iv, iv[1:]))
+                if kind == "capa":
+                    okc = okc and all(r - l == 1 or d.min_segment_length <= r - l <= d.max_segment_length for l, r in iv)
+                else:
+                    okc = okc and all(r - l >= d.min_segment_length and l >= 1 and r <= n - 1 for l, r in iv)
+                if "labels" in y.columns:
+                    okc = okc and [int(v) for v in y["labels"]] == list(range(1, len(y) + 1))
+                if "icolumns" in y.columns:
+                    okc = okc and all(len(cc) > 0 and len(set(int(c) for c in cc)) == len(cc) and all(0 <= int(c) < p for c in cc) for cc in y["icolumns"])
+                if not okc:
+                    bad(det, f"anomalies are not sorted, disjoint, left-closed intervals of admissible length labelled 1..K: {iv[:10]}", {"anomalies": [list(t) for t in iv][:50]})
